@@ -12,10 +12,9 @@ open PsdVerif PsdVerif.Codec PsdVerif.Psd PsdVerif.Payload PsdVerif.Payload.PCod
 
 variable (tb : Descriptor.Tables)
 
-/-- the side condition of a class as an image-resource payload: only the slices and the descriptor resources have one -/
+/-- the side condition of a class as an image-resource payload: only the slices have one (C01's `chainOK`) -/
 def RClass.ResaveOK : (c : RClass) → c.Val → Prop
   | .slices => Slices.ResaveOK
-  | .descriptorBlock => Descriptor.Block.KeysFull
   | _ => fun _ => True
 
 theorem RClass.decOKIf (ht : Descriptor.TermsFour tb) : ∀ c : RClass, DecOKIf (c.codec tb) c.ResaveOK
@@ -41,7 +40,7 @@ theorem RClass.decOKIf (ht : Descriptor.TermsFour tb) : ∀ c : RClass, DecOKIf 
   | .versionInfo => VersionInfo.decOK.toIf _
   | .printScale => PrintScale.decOK.toIf _
   | .pixelAspectRatio => PixelAspectRatio.decOK.toIf _
-  | .descriptorBlock => DescriptorResource.decOKIf tb ht
+  | .descriptorBlock => (DescriptorResource.decOK tb ht).toIf _
   | .layerSelectionIDs => LayerSelectionIDs.decOK.toIf _
   | .layerGroupEnabledIDs => LayerGroupEnabledIDs.decOK.toIf _
   | .displayInfo => DisplayInfo.decOK.toIf _
@@ -155,7 +154,6 @@ instance (x : SlicesV6) : Decidable (SlicesV6.ResaveOK x) := by unfold SlicesV6.
 instance (x : Slices) : Decidable (Slices.ResaveOK x) := by
   unfold Slices.ResaveOK; cases x.data <;> simp only <;> exact inferInstance
 def slicesDec (v : Slices) : Decidable (Slices.ResaveOK v) := inferInstance
-def blockDec (v : Descriptor.Block) : Decidable v.KeysFull := inferInstance
 
 instance RClass.decResaveOK : (c : RClass) → (v : c.Val) → Decidable (c.ResaveOK v)
   | .resolutionInfo, _ => isTrue trivial
@@ -180,7 +178,7 @@ instance RClass.decResaveOK : (c : RClass) → (v : c.Val) → Decidable (c.Resa
   | .versionInfo, _ => isTrue trivial
   | .printScale, _ => isTrue trivial
   | .pixelAspectRatio, _ => isTrue trivial
-  | .descriptorBlock, v => blockDec v
+  | .descriptorBlock, _ => isTrue trivial
   | .layerSelectionIDs, _ => isTrue trivial
   | .layerGroupEnabledIDs, _ => isTrue trivial
   | .displayInfo, _ => isTrue trivial
